@@ -188,11 +188,13 @@ func (cp *FreeList) ToGC() (string, error) {
 		return workFilePath, nil
 	}
 
-	_, err = cp.Flush()
-	if err != nil {
-		return "", err
-	}
-
+	// Only hand over what has already been written to the freelist file.
+	// Entries still in the pool are not flushed here: the store flushes the
+	// freelist only after the primary and the index, so an entry in the file
+	// names a record that is on disk and that the flushed index no longer
+	// refers to. Entries in the pool may name records that are not written
+	// yet, or that the index on disk still points to, and must wait for the
+	// next store flush before GC may act on them.
 	cp.flushLock.Lock()
 	defer cp.flushLock.Unlock()
 
